@@ -8,18 +8,27 @@ precedes), so a later Pop/Peek on that heap returns an element that another
 held element precedes.  TestHeap_MaxHeap pins the resulting array.
 
 The matcher is consulted only for cases whose observation equals the model's
-and on which the property checker fails.  It re-plays the history on a
-transcription of heap.go (array layout included), checks that what it computes
-is what was observed, and answers True only if
+and on which the property checker fails.  It re-plays the history (three heap
+variables, as in C03_Wire.v) on a transcription of heap.go (array layout
+included), checks that what it computes is what was observed, word for word,
+and answers True only if
   * at least one Pop/Peek (final drains included) returned a non-extremal element, and
-  * EVERY such Pop/Peek happened on a heap variable that is "tainted": a
-    successful Delete whose victim was neither at index 0 nor in the last slot
-    hit that heap since it was last rebuilt (Clear, Convert, FromSlice, or being
-    the fresh result / emptied input of Merge/Meld), and
+  * EVERY such Pop/Peek happened on a heap object that is "tainted" at that
+    moment.  A heap object becomes tainted exactly when a SUCCESSFUL Delete whose
+    victim was NEITHER at index 0 NOR in the last slot leaves its array out of
+    heap order (type: Heap.Delete; operation: inner victim; state: the element
+    moved into the hole does not fit there).  It stops being tainted as soon as
+    its array is in heap order again (by luck of later Pops/Deletes), when it
+    is rebuilt (Clear, Convert, FromSlice) or emptied by Meld; the result of
+    Merge/Meld is a fresh, untainted heap; the receiver kept by Merge keeps its
+    taint; Swap/Swap2 move the objects, taint included.  Root and last-slot
+    Deletes never taint.
   * nothing else about the observation departs from the specification
     (sizes, multisets, Delete results, Merge/Meld effects are those of the
     transcription, which conserves elements).
-Any other failure of C03 therefore stays a VIOLATION."""
+Any other failure of C03 — e.g. a non-extremal Pop on a heap no inner Delete
+has touched, a lost or duplicated element, inputs changed by Merge — therefore
+stays a VIOLATION."""
 
 
 def _cmp(c):
@@ -66,6 +75,15 @@ class _H:
     def extremal(self):
         return all(not self.c(y, self.d[0]) for y in self.d)
 
+    def ordered(self):
+        d = self.d
+        return all(not self.c(d[i], d[(i - 1) // 2]) for i in range(1, len(d)))
+
+    def settle(self):
+        # a heap whose array is (again) in heap order is not tainted
+        if self.taint and self.ordered():
+            self.taint = False
+
     def pop(self):
         if not self.d:
             return 0
@@ -73,8 +91,7 @@ class _H:
         self.d[0] = self.d[-1]
         self.d.pop()
         self.down(len(self.d), 0)
-        if len(self.d) <= 1:
-            self.taint = False
+        self.settle()
         return v
 
     def delete(self, v):
@@ -85,8 +102,9 @@ class _H:
         self.d[idx], self.d[n - 1] = self.d[n - 1], self.d[idx]
         self.d.pop()
         self.down(n - 1, 0)
-        if 0 < idx < n - 1:
-            self.taint = True
+        if 0 < idx < n - 1 and not self.ordered():
+            self.taint = True      # defect #20 struck: inner victim, moved element does not fit
+        self.settle()
         return True
 
     def convert(self, c):
@@ -121,7 +139,7 @@ def _from_slice(xs, c):
 def c03_delete_resift(inp, obs):
     if len(inp) < 4 or inp[0] != 0 or inp[1] not in (0, 1):
         return False
-    h0, h1 = _H(inp[2]), _H(inp[3])
+    h0, h1, h2 = _H(inp[2]), _H(inp[3]), _H(inp[3])
     w, o = list(inp[4:]), list(obs)
     bad = []          # (tainted?) for every non-extremal Pop/Peek
 
@@ -149,6 +167,7 @@ def c03_delete_resift(inp, obs):
                 return False
             if code == 1:
                 h0.push(take(w)[0])
+                h0.settle()
             elif code == 2:
                 check_root(h0)
                 if take(o)[0] != h0.pop():
@@ -187,17 +206,21 @@ def c03_delete_resift(inp, obs):
                     h0.d, h1.d, h0.taint, h1.taint = [], [], False, False
                 if take_list(o) != sorted(h0.d) or take_list(o) != sorted(h1.d):
                     return False
+                h2 = h0            # the receiver stays alive (taint included after Merge)
                 h0 = t
             elif code == 13:
                 h0, h1 = h1, h0
             elif code == 14:
                 for v in take_list(w):
                     h0.push(v)
+                h0.settle()
+            elif code == 15:
+                h0, h2 = h2, h0
             else:
                 return False
             if take(o)[0] != len(h0.d):
                 return False
-        for h in (h0, h1):
+        for h in (h0, h1, h2):
             if take(o)[0] != 0:
                 return False
             popped = take_list(o)
@@ -209,7 +232,7 @@ def c03_delete_resift(inp, obs):
                     return False
             if take(o)[0] != 1:
                 return False
-        if o != [0, 0, 0, 0]:
+        if o != [0, 0, 0, 0, 0]:
             return False
     except (ValueError, IndexError):
         return False
